@@ -46,8 +46,8 @@ def hand_fns(cli):
 
 def check(ctx, rep):
     rep.rule('R20.a', 'rustdoc ids are only ever compared for equality or hashed; node types implement no ordering', floor=8)
-    rep.rule('R20.b', 'every Indexed takes its index from Iterator::position over the declared, non-skipped member list', floor=6)
-    rep.rule('R20.c', 'aggregated Indexed tuples are sorted (or keyed by index) before use', floor=5)
+    rep.rule('R20.b', 'every Indexed takes its index from Iterator::position over the declared, non-skipped member list', floor=4)
+    rep.rule('R20.c', 'aggregated Indexed tuples are sorted (or keyed by index) before use', floor=3)
     rep.rule('R20.d', 'the registry and enum formats are ordered maps', floor=2)
     cli = ctx.crate('default', 'crux_cli')
     if cli is None:
